@@ -674,4 +674,42 @@ func (m *lockModel) checkLockset(r *Run, rule1, rule2 string) {
 				fmt.Sprintf("%s calls %s while holding %s; %s locks it again: self-deadlock", c.FuncName(fn), cal.Name(), m.fieldName(m.mtxF), cal.Name()))
 		})
 	}
+	// ... nor implicitly: handing the object itself to a formatting function makes fmt call its String/Error/Format
+	// method, and that method takes the lock
+	var implicit []*ssa.Function
+	for _, fn := range m.fns {
+		if fn.Parent() == nil && m.locks[fn] && (fn.Name() == "String" || fn.Name() == "Error" || fn.Name() == "Format" || fn.Name() == "GoString") {
+			implicit = append(implicit, fn)
+		}
+	}
+	for _, fn := range m.fns {
+		fn := fn
+		allInstrs(fn, func(in ssa.Instruction) {
+			call, ok := in.(*ssa.Call)
+			if !ok {
+				return
+			}
+			cal := call.Call.StaticCallee()
+			if cal == nil || cal.Pkg == nil || (cal.Pkg.Pkg.Path() != "fmt" && cal.Pkg.Pkg.Path() != "log" && cal.Pkg.Pkg.Path() != "errors") {
+				return
+			}
+			passesSelf := dependsOn(call, func(v ssa.Value) bool {
+				mi, isMI := v.(*ssa.MakeInterface)
+				return isMI && m.isRecv(fn, mi.X)
+			})
+			if !passesSelf {
+				return
+			}
+			for _, im := range implicit {
+				h := m.held(fn, in)
+				r.Check(rule2, tn+"|"+c.FuncName(fn)+"|formats itself ("+im.Name()+")", c.Pos(in.Pos()), !h,
+					"the object is not handed to a formatting function while its mutex is held",
+					fmt.Sprintf("%s passes the %s itself to %s while holding %s; fmt calls its %s method, which locks the same non-reentrant mutex: the call never returns and every later API call blocks", c.FuncName(fn), m.H.Obj().Name(), cal.Name(), m.fieldName(m.mtxF), im.Name()))
+			}
+		})
+	}
+	// the number of locking String/Error methods is itself recorded, so that the rule is not vacuous
+	for _, im := range implicit {
+		r.Hold(rule2, tn+"|"+c.FuncName(im)+"|implicit-stringer", c.Pos(im.Pos()), im.Name()+" takes the lock: formatting the object under the lock would deadlock (call sites checked)")
+	}
 }
